@@ -362,7 +362,7 @@ def run_shard(ctx):
             w = judge_multi(cfg, groups, nss)
             ctx.observe("multi-sink-cases")
             ctx.observe("prefix-events-compared", sum(len(n) for n in nss) * 2)
-            if w is not None and w["clause"] != "serializer-raised":
+            if w is not None and not (w["clause"] == "serializer-raised" and not groups[0]):
                 w.update({"cfg": cfg, "groups": T.to_json(groups), "nss": nss, "mode": "rdf11"})
                 ctx.violation(w)
             ctx.case(("multi", sorted(cfg.items()), groups, nss), w is None,
@@ -373,7 +373,8 @@ def run_shard(ctx):
             w = judge_dataset_as_triples(cfg, stmts, ns)
             ctx.observe("dataset-through-triples-stream-cases")
             ctx.observe("prefix-events-compared", len(ns) * 2)
-            if w is not None and w["clause"] != "serializer-raised":
+            if w is not None and not (w["clause"] == "serializer-raised" and w["summary"].startswith("JellyAssertionError")):
+                # (a Dataset with options that name a flat TRIPLES type is refused as an incompatible pair: fine)
                 w.update({"cfg": cfg, "stmts": T.to_json(stmts), "ns": ns, "mode": "rdf11", "kind": "dataset-as-triples"})
                 ctx.violation(w)
             ctx.case(("ds-triples", sorted(cfg.items()), stmts, ns), w is None and len({s[3] for s in stmts}) >= 2,
@@ -388,9 +389,13 @@ def run_shard(ctx):
         ctx.observe("reserialize-checks")
         ctx.observe(f"{integ}:physical{cfg['physical']}")
         if w is not None:
-            if w["clause"] == "serializer-raised":
-                ctx.observe("serializer-raised (C01/C02 judge)")
+            if w["clause"] == "serializer-raised" and not stmts:
+                ctx.observe("serializer-raised for an empty sink (its arity cannot be guessed: DESIGN 7)")
             else:
+                # tables are >= need (declarations included) by construction: a refusal here is spurious - with
+                # declarations on the serializer must write what it writes with them off
+                if w["clause"] == "serializer-raised":
+                    w["clause"] = "serializer-raised-with-declarations"
                 w.update({"cfg": cfg, "stmts": T.to_json(stmts), "ns": ns, "mode": mode})
                 ctx.violation(w)
             ctx.case((cfg, stmts, ns), False)
@@ -423,7 +428,7 @@ def replay(w: dict):
         return r if r and r["clause"] != "serializer-raised" else None
     judge = judge_generic if cfg["integration"] == "generic" else judge_rdflib
     r = judge(cfg, stmts, ns, w["mode"])
-    return r if r and r["clause"] != "serializer-raised" else None
+    return r if r and not (r["clause"] == "serializer-raised" and not stmts) else None
 
 
 RDFLIB_DEFAULT_PREFIXES = None
